@@ -70,6 +70,8 @@ def run(chk):
     n_leaves = 0
     for enc, lf, know, length, ordered, why in rows:
         cases = [((), None)]
+        if enc.kind == 'generic':
+            continue
         if enc.kind == 'writer':
             mt = commands.MESSAGE_TYPE_OF_WRITER[enc.api]
             if mt == 0x00:
